@@ -270,6 +270,9 @@ pub enum Op {
         libs: Vec<String>,
         /// None = text that does not parse; the variant index picks which
         yaml: Result<Yaml, usize>,
+        /// `original_libapp_paths_size` as a careless C caller passes it, when it is not the length of `libs`:
+        /// zero, negative, or smaller than the list (never larger: the library may read that many pointers)
+        count: Option<i32>,
     },
     Restart,
     Start,
@@ -312,13 +315,14 @@ pub fn render_yaml(y: &Result<Yaml, usize>) -> String {
 /// Render an op line. `stream` is what the decompressor emitted for an update's download.
 pub fn render_op(op: &Op, stream: Option<&[u8]>) -> String {
     match op {
-        Op::Init { version, dirs, libs, yaml } => format!(
-            "init ver={} st={} ca={} libs={} yaml={}",
+        Op::Init { version, dirs, libs, yaml, count } => format!(
+            "init ver={} st={} ca={} libs={} yaml={}{}",
             enc_tok(version),
             format!("st{}", dirs),
             format!("ca{}", dirs),
             join_with(",", &libs.iter().map(|l| enc_tok(l)).collect::<Vec<_>>()),
-            render_yaml(yaml)
+            render_yaml(yaml),
+            match count { Some(n) => format!(" n={}", n), None => String::new() }
         ),
         Op::Restart => "restart".into(),
         Op::Start => "start".into(),
@@ -501,7 +505,8 @@ pub fn parse_op(line: &str, recompress: &dyn Fn(&[u8]) -> Vec<u8>) -> Option<Op>
                     key: dec_opt(f[4])?,
                 })
             };
-            Some(Op::Init { version, dirs, libs, yaml })
+            let count = field(rest, "n").and_then(|s| s.parse::<i32>().ok()).map(|n| n.min(libs.len() as i32));
+            Some(Op::Init { version, dirs, libs, yaml, count })
         }
         ["restart"] => Some(Op::Restart),
         ["start"] => Some(Op::Start),
